@@ -32,6 +32,14 @@ NAMED = {
         "n_dim": 2, "cond": [None, 0], "families": ["lognormal", "lognormal"], "shapes": [0, 2],
         "dims": [{"family": "lognormal", "params": {"mu": 3.0, "sigma": 0.05}},
                  {"family": "lognormal", "fixed": {"sigma": 0.5}, "deps": {"mu": ["linear", [0.0, 0.1]]}}]},
+    "weibull-location-kink": {
+        "n_dim": 2, "cond": [None, 0], "families": ["weibull", "expweibull"], "shapes": [0, 3],
+        "dims": [{"family": "weibull", "params": {"alpha": 2.92931156066999, "beta": 1.6453371631343465,
+                                                   "gamma": 0.9921150788517182}},
+                 {"family": "expweibull", "fixed": {},
+                  "deps": {"alpha": ["const", [0.9326626908611051]],
+                           "beta": ["asym3", [1.5235928213832088, 0.46857659266181484, 0.8412368755275286]],
+                           "delta": ["logistic3", [1.5661102782318028, 0.8375949844113009, 0.4794009638702076]]}}]},
     "weibull-location-grows-with-given": {
         "n_dim": 3, "cond": [None, 0, 0], "families": ["lognormfit", "weibull", "expweibull"], "shapes": [0, 2, 3],
         "dims": [{"family": "lognormfit", "params": {"mu_norm": 1.1373217746444433, "sigma_norm": 1.0031781629401548}},
@@ -512,8 +520,67 @@ def eval_history_task(c):
     return out
 
 
+# ---- a variable addressed from the end (negative dim) or by a numpy integer ---------------------
+
+def dim_alias_task(c):
+    """marginal_pdf / marginal_cdf / marginal_icdf with dim = -k (int or numpy integer) must equal the
+    same call with dim = n_dim - k, and the reference marginal of that variable; an out-of-range dim
+    must raise"""
+    model = get_model(c)
+    pc = Pieces(model)
+    n_dim, k = model.n_dim, c["k"]
+    pos = n_dim - k
+    x = point_at(pc, c["levels"])
+    v = x[pos]
+    out = []
+    t0 = time.time()
+    for what in c["whats"]:
+        for label, neg in (("int", -k), ("numpy-int64", np.int64(-k)), ("numpy-int64-nonneg", np.int64(pos))):
+            if label != "int" and not c.get("numpy_too"):
+                continue
+            rec = dict(kind="alias", what=what, exc="", val=0, same=0, ref=0, raised=True)
+            try:
+                with warnings.catch_warnings():
+                    warnings.simplefilter("ignore")
+                    if what == "marginal_icdf":
+                        np.random.seed(c["seed"] % (2**32 - 1))
+                        a = float(np.asarray(model.marginal_icdf(np.array([0.5]), neg)).reshape(-1)[0])
+                        np.random.seed(c["seed"] % (2**32 - 1))
+                        b = float(np.asarray(model.marginal_icdf(np.array([0.5]), pos)).reshape(-1)[0])
+                        # compare in probability: F(x) of both quantiles (scale 1e9)
+                        rec.update(val=Qc(pc.marginal(pos, a, True), 1e9, -BIG, BIG),
+                                   same=Qc(pc.marginal(pos, b, True), 1e9, -BIG, BIG))
+                        rec["ref"] = rec["same"]
+                    else:
+                        sc = 1e8 if what == "marginal_pdf" else 1e9
+                        a = float(np.asarray(getattr(model, what)(np.array([v]), neg)).reshape(-1)[0])
+                        b = float(np.asarray(getattr(model, what)(np.array([v]), pos)).reshape(-1)[0])
+                        rec.update(val=Qc(a, sc, -BIG, BIG), same=Qc(b, sc, -BIG, BIG),
+                                   ref=Qc(pc.marginal(pos, v, what == "marginal_cdf"), sc, -BIG, BIG))
+            except Exception as e:  # noqa
+                rec["exc"] = f"{type(e).__name__}: {e}"[:200]
+            out.append(dict(rec=rec, key=f"{what} dim={-k} ({label}) of n_dim={n_dim} levels={c['levels']} " + model_key(c),
+                            nontrivial=rec["ref"] > 0 and model.conditional_on[pos] is not None, case=c,
+                            secs=round(time.time() - t0, 1)))
+    if c.get("out_of_range"):
+        for what in ("marginal_pdf", "marginal_cdf", "marginal_icdf"):
+            for bad in (n_dim, -n_dim - 1):
+                rec = dict(kind="alias", what=what + "-out-of-range", exc="", val=0, same=0, ref=0, raised=False)
+                try:
+                    with warnings.catch_warnings():
+                        warnings.simplefilter("ignore")
+                        arg = np.array([0.5]) if what == "marginal_icdf" else np.array([v])
+                        getattr(model, what)(arg, bad)
+                except (IndexError, ValueError):
+                    rec["raised"] = True
+                except Exception as e:  # noqa
+                    rec["exc"] = f"{type(e).__name__}: {e}"[:200]
+                out.append(dict(rec=rec, key=f"{what} dim={bad} out of range of n_dim={n_dim}", nontrivial=True, case=c))
+    return out
+
+
 def run_task(c):
-    return {"eval_history": eval_history_task, "pdf": pdf_task, "integral": integral_task, "icdf": icdf_task,
+    return {"dim_alias": dim_alias_task, "eval_history": eval_history_task, "pdf": pdf_task, "integral": integral_task, "icdf": icdf_task,
             "icdf_history": icdf_history_task}[c["task"]](c)
 
 
@@ -583,6 +650,21 @@ def make_tasks(ctx, cfgs):
             if k < 2:      # three nested levels of nquad: many minutes each, started first
                 slow.append(dict(b, task="integral", what="marginal_cdf", dim=1, levels=lv, heavy=True))
                 slow.append(dict(b, task="integral", what="cdf", levels=lv, heavy=True))
+    # the variable addressed from the end: dim = -k (and numpy integers), 2-D and 3-D
+    for j in range(ctx.pick(2, 6)):
+        cfg = cond2[(j * 4 + 1 + ctx.seed) % len(cond2)]
+        b = base(cfg, smooth=True)
+        for kk in (1, 2):
+            slow.append(dict(b, task="dim_alias", k=kk, levels=lv2[j % len(lv2)], numpy_too=(j == 0),
+                             whats=["marginal_pdf", "marginal_cdf", "marginal_icdf"] if kk == 1 else ["marginal_pdf", "marginal_cdf"],
+                             out_of_range=(j == 0 and kk == 1)))
+    for j in range(ctx.pick(1, 3)):
+        cfg = c3[(j * 11 + 3 + ctx.seed) % len(c3)]
+        b = base(cfg, smooth=True)
+        for kk in (1, 2, 3):
+            slow.append(dict(b, task="dim_alias", k=kk, levels=[[0.5, 0.6, 0.4], [0.8, 0.3, 0.7], [0.3, 0.7, 0.6]][j],
+                             whats=["marginal_pdf"] + (["marginal_icdf"] if kk == 1 else []),
+                             out_of_range=(j == 0 and kk == 1)))
     # evaluation histories on one model object
     hows = ["dep-parameters", "dep-fit", "set-attribute", "replace-entry", "dep-parameters", "replace-entry"]
     for k in range(ctx.pick(12, 48)):
@@ -610,6 +692,8 @@ def make_tasks(ctx, cfgs):
               named="narrow-conditioning-variable")
     slow.append(dict(nb, task="integral", what="marginal_pdf", dim=1, levels=[0.5, 0.5]))
     slow.append(dict(nb, task="integral", what="mass", dim=1, levels=[0.5, 0.5]))
+    slow.append(dict(nb, task="integral", what="marginal_pdf", dim=1, levels=[0.5, 0.5], families=["weibull", "expweibull"],
+                     sh=[0, 3], named="weibull-location-kink"))
     nb3 = dict(n_dim=3, cond=[None, 0, 0], sh=[0, 2, 3], families=["lognormfit", "weibull", "expweibull"], seed=0,
                smooth=False, named="weibull-location-grows-with-given")
     if not ctx.quick:       # one call of ~60 s
@@ -687,6 +771,10 @@ def selftest(ctx, recs, failing):
     g = copy.deepcopy(gh); g["ints"][0]["fresh"] += 5000; muts.append(("SameAsFreshModel", g))
     g = copy.deepcopy(gh); g["ints"][0]["val"] += 5000; g["ints"][0]["fresh"] += 5000; muts.append(("MarginalsMatch", g))
     g = copy.deepcopy(gh); g["ints"][1]["val"] += 5000; g["ints"][1]["fresh"] += 5000; muts.append(("CdfMatches", g))
+    ga = dict(kind="alias", what="marginal_cdf", exc="", val=440570000, same=440570000, ref=440570100, raised=True)
+    g = dict(ga, val=980700000); muts.append(("DimAliasesAgree", g))
+    g = dict(ga, val=980700000, same=980700000); muts.append(("MarginalsMatch", g))
+    muts.append(("OutOfRangeDimRejected", dict(ga, what="marginal_pdf-out-of-range", raised=False)))
     muts.append(("IcdfInvertsCdf", dict(kind="icdf", p=500000000, F=520000000, n=100000)))
     muts.append(("IcdfInvertsCdf", dict(kind="icdf", p=500000000, F=500002000, n=0)))
     accept = dict(kind="icdf", p=500000000, F=510000000, n=100000, id=len(muts) + 1)   # inside the DKW radius
@@ -696,8 +784,11 @@ def selftest(ctx, recs, failing):
         sr.append(r)
     accept["id"] = len(muts) + 1
     gh["id"] = len(muts) + 2
+    ga["id"] = len(muts) + 3
     t = ctx.traces
-    f2 = ctx.validate("Trace_C06", "Trace_C06.cfg", sr + [accept, gh])
+    f2 = ctx.validate("Trace_C06", "Trace_C06.cfg", sr + [accept, gh, ga])
+    if ga["id"] in f2:
+        raise Machinery(f"selftest: a conforming alias record was rejected: {f2[ga['id']]}")
     if gh["id"] in f2:
         raise Machinery(f"selftest: a conforming history record was rejected: {f2[gh['id']]}")
     ctx.traces = t
@@ -716,7 +807,10 @@ def run(ctx):
                 "(2-D x4/x12, 3-D x1/x3), 9/30 points "
                 "per model (bulk, tails, below support, integer-valued) in 8 input kinds; integrals: conditional 2-D "
                 "models (and independent ones) at 2-4 probability-level points, 3-D marginal_pdf of dimensions 1 "
-                "and 2 (thorough also two 3-D cdf / marginal_cdf calls); evaluation histories on one model object (pdf at single "
+                "and 2 (thorough also two 3-D cdf / marginal_cdf calls); marginal_pdf / marginal_cdf / marginal_icdf with the variable "
+                "addressed from the end (dim = -k, python int and numpy integer; 2-D and 3-D) against the same call "
+                "with dim = n_dim-k and the reference, out-of-range dims must raise; "
+                "evaluation histories on one model object (pdf at single "
                 "points and arrays, marginal_pdf, cdf -> modify in place: dependence-function parameters dict, "
                 "DependenceFunction.fit, parameter attributes, replaced entry of model.distributions -> the same "
                 "evaluations again) judged against the factorised reference from the current objects and against a "
@@ -728,9 +822,10 @@ def run(ctx):
                    "model's own conditional pdf/cdf (break points at quantiles, epsrel 1e-11)",
                    "the model's own distributions[i].pdf/cdf/icdf as the conditional pieces (as the property states)"]
     ctx.assumptions = ["integral comparisons on RANDOM models use quadrature-friendly parameters (models.SPEC_SMOOTH): "
-                       "bounded densities (Weibull beta >= 1.3 ...) and no location-like parameter that grows with "
-                       "the given; the regime outside (mass narrow relative to its distance from 0, where "
-                       "integration over (0, inf) loses it) is covered by the named cases of c06.NAMED",
+                       "bounded densities (Weibull beta >= 1.3 ...), no location-like parameter that grows with "
+                       "the given and no Weibull location (gamma = 0); the regime outside (mass narrow relative to "
+                       "its distance from 0, or a support starting inside (0, inf): integration over (0, inf) loses "
+                       "mass / does not resolve the kink) is covered by the named cases of c06.NAMED",
                        "model.cdf integrates from 0: non-negative families only",
                        "integral calls that do not finish within the wall-clock budget (6x the unloaded time) are "
                        "dropped and counted in notes; what finished is judged; machinery failure only if none finished"]
@@ -739,6 +834,8 @@ def run(ctx):
     ctx.model_check("Rosenblatt", "MC_Rosenblatt_c06_wrongcol.cfg", expect_violation="Factorises")
     ctx.model_check("Rosenblatt", "MC_Rosenblatt_c06_noinverse.cfg", expect_violation="ReorderIsInverse")
     ctx.model_check("Rosenblatt", "MC_Rosenblatt_c06_noinverse_sum.cfg", expect_violation="MarginalIsSumOverOthers")
+    ctx.model_check("Rosenblatt", "MC_Rosenblatt_c06_rawnegdim.cfg", expect_violation="ReorderIsInverse")
+    ctx.model_check("Rosenblatt", "MC_Rosenblatt_c06_rawnegdim_sum.cfg", expect_violation="MarginalIsSumOverOthers")
     cfgs = [c for c in M.tlc_configs(ctx, "Gen_Rosenblatt3.cfg")]
     pdf_tasks, slow = make_tasks(ctx, cfgs)
     t0 = time.time()
@@ -755,6 +852,8 @@ def run(ctx):
     kinds = {}
     for r, o in zip(recs, meta):
         k = r["kind"] if r["kind"] != "integral" else r["what"] + ("/int" if r["isint"] else "")
+        if r["kind"] == "alias":
+            k = "alias/" + r["what"]
         if o.get("history"):
             k = ("icdf/" if r["kind"] == "icdf" else "eval-history/") + o["history"]
         kinds[k] = kinds.get(k, 0) + 1
@@ -765,7 +864,9 @@ def run(ctx):
     if dropped == len(slow):
         raise Machinery(f"none of the {len(slow)} integral calls finished within the budget")
     missing = [k for k in ("pdf", "cdf", "marginal_pdf", "marginal_cdf", "mass", "icdf", "marginal_pdf/int",
-                           "icdf/after-parameter-change", "icdf/after-refit", "eval-history/after-modification")
+                           "icdf/after-parameter-change", "icdf/after-refit", "eval-history/after-modification",
+                           "alias/marginal_pdf", "alias/marginal_cdf", "alias/marginal_icdf",
+                           "alias/marginal_pdf-out-of-range")
                if not kinds.get(k)]
     ctx.notes["kinds_without_a_record"] = missing
     nmoved = sum(1 for r, o in zip(recs, meta) if r["kind"] == "history" and o.get("history") == "after-modification"
